@@ -318,3 +318,49 @@ P("p-docstrings", ALL, [(INIT, '    """\n    Load a string containing simfile da
 # whole-package AST-computed transforms (behaviour-preserving by construction; confirmed with --with-tests)
 VARIANTS.append({"id": "g-rename-all-locals", "props": ALL, "kind": "preserve", "edits": [], "transform": "rename_locals"})
 VARIANTS.append({"id": "g-reformat-all-modules", "props": ALL, "kind": "preserve", "edits": [], "transform": "reformat"})
+
+# correct refactorings of code the seeded changes touched (must stay silent)
+P("p-open-early-return-correct", ["C03", "C05", "C19"], [(INIT, '''    try_encodings = ENCODINGS
+    if "encoding" in kwargs:
+        try_encodings = [kwargs.pop("encoding")]
+
+    return open_with_detected_encoding(
+        filename,
+        try_encodings=try_encodings,
+        strict=strict,
+        filesystem=filesystem,
+        **kwargs
+    )[0]''', '''    if "encoding" in kwargs:
+        return open_with_detected_encoding(
+            filename,
+            try_encodings=[kwargs.pop("encoding")],
+            strict=strict,
+            filesystem=filesystem,
+            **kwargs
+        )[0]
+
+    return open_with_detected_encoding(
+        filename, strict=strict, filesystem=filesystem, **kwargs
+    )[0]''')])
+P("p-coalesce-cache-correct", ["C11", "C13"], [(ENGINE, '''            if warp_starts:
+                last_warp_end: Beat = warp_ends[-1].beat
+                if warp.beat <= last_warp_end:
+                    if warp_end > last_warp_end:
+                        warp_ends[-1] = BeatValue(
+                            beat=warp_end,
+                            value=Decimal(0),
+                        )
+                else:
+                    warp_starts.append(BeatValue(beat=warp.beat, value=zero))
+                    warp_ends.append(BeatValue(beat=warp_end, value=zero))
+            else:
+                warp_starts.append(BeatValue(beat=warp.beat, value=zero))
+                warp_ends.append(BeatValue(beat=warp_end, value=zero))''', '''            if last_warp_end is not None and warp.beat <= last_warp_end:
+                if warp_end > last_warp_end:
+                    warp_ends[-1] = BeatValue(beat=warp_end, value=zero)
+                    last_warp_end = warp_end
+            else:
+                warp_starts.append(BeatValue(beat=warp.beat, value=zero))
+                warp_ends.append(BeatValue(beat=warp_end, value=zero))
+                last_warp_end = warp_end'''), (ENGINE, "        warp_ends = BeatValues()\n        for warp_ in", "        warp_ends = BeatValues()\n        last_warp_end = None\n        for warp_ in")])
+P("p-keysound-list-comprehension", ["C07", "C08"], [(NOTES, "            keysound_indices: List[Optional[int]] = [None] * self._columns\n", "            keysound_indices: List[Optional[int]] = [None] * max(self._columns, 1)\n")])
